@@ -117,7 +117,13 @@ theorem SRel.setGlobal (n : String) (hn : n ∉ cx.W) (v : Val N) : SRel Q cx β
     ginv := fun p hp => by
       have hne : p.1 ≠ n := fun e => hn (e ▸ cx.sub N p hp)
       simp only [State.getGlobal, State.setGlobal, lookup_setAssoc_ne hne]
-      exact h.ginv p hp }
+      exact h.ginv p hp
+    finv := fun p hp => by
+      have hne : p.1 ≠ n := fun e => hn (e ▸ cx.subF p hp)
+      obtain ⟨id, clo, h1, h2⟩ := h.finv p hp
+      refine ⟨id, clo, ?_, h2⟩
+      simp only [State.getGlobal, State.setGlobal, lookup_setAssoc_ne hne]
+      exact h1 }
 theorem SRel.rawSet (t : Nat) (k v : Val N) : SRel Q cx β (σ.rawSet t k v) (σ'.rawSet t k v) := by
   simp only [State.rawSet, h.getTable]; exact h.setTable _ _
 theorem SRel.pushTrace (e : Event) :
@@ -132,7 +138,17 @@ theorem SRel.setMany (t : Nat) (i : Nat) (vs : List (Val N)) :
 theorem SRel.allocClosure {c c' : Closure N} (hc : CRel Q cx β c c') :
     (σ'.allocClosure c').1 = (σ.allocClosure c).1 ∧ SRel Q cx β (σ.allocClosure c).2 (σ'.allocClosure c').2 :=
   ⟨by simp only [State.allocClosure, h.closure_length],
-   { h with closures := forall2_snoc h.closures hc }⟩
+   { h with
+     closures := forall2_snoc h.closures hc
+     finv := fun p hp => by
+       obtain ⟨id, clo, h1, h2, h3⟩ := h.finv p hp
+       refine ⟨id, clo, h1, ?_, h3⟩
+       simp only [State.allocClosure]
+       rw [List.getElem?_append_left]
+       · exact h2
+       · cases hlt : σ.closures[id]? with
+         | none => rw [hlt] at h2; cases h2
+         | some _ => exact (List.getElem?_eq_some_iff.mp hlt).1 }⟩
 
 /-! ### cells -/
 
@@ -141,6 +157,7 @@ theorem SRel.setCell {a b : Nat} (hab : β a b) (v : Val N) : SRel Q cx β (σ.s
   tables := h.tables
   trace := h.trace
   ginv := h.ginv
+  finv := h.finv
   inj := h.inj
   bound := fun hxy => by
     simp only [State.setCell, length_listSet]; exact h.bound hxy
@@ -173,6 +190,7 @@ theorem SRel.allocBoth (v : Val N) : SRel Q cx (extBoth β σ σ') (σ.allocCell
   tables := h.tables
   trace := h.trace
   ginv := h.ginv
+  finv := h.finv
   inj := fun {a b a' b'} h1 h2 => by
     rcases h1 with h1 | ⟨rfl, rfl⟩ <;> rcases h2 with h2 | ⟨rfl, rfl⟩
     · exact h.inj h1 h2
@@ -198,6 +216,7 @@ theorem SRel.allocLeft (v : Val N) : SRel Q cx β (σ.allocCell v).2 σ' where
   tables := h.tables
   trace := h.trace
   ginv := h.ginv
+  finv := h.finv
   inj := h.inj
   bound := fun h1 => by
     simp only [State.allocCell, List.length_append, List.length_singleton]
@@ -213,6 +232,7 @@ theorem SRel.allocRight (v : Val N) : SRel Q cx β σ (σ'.allocCell v).2 where
   tables := h.tables
   trace := h.trace
   ginv := h.ginv
+  finv := h.finv
   inj := h.inj
   bound := fun h1 => by
     simp only [State.allocCell, List.length_append, List.length_singleton]
